@@ -26,6 +26,9 @@ func parseWireGTerm(tok string) (vh.GTerm, bool) {
 		return vh.GTerm{Kind: vh.KIRI, IRI: v}, ok
 	case 'B':
 		l, ok := unhexS(tok[1:])
+		if ok && l == "" {
+			return vh.GTerm{Kind: vh.KBNode, BNode: -1}, true
+		}
 		if ok && l == "b" {
 			return vh.GTerm{Kind: vh.KBNode, BNode: 0}, true
 		}
